@@ -48,11 +48,17 @@ type Search struct {
 	// starts at the function entry (or start) and carries the facts learned on
 	// the way to the Via edge.
 	Via func(e Edge) bool
+	// ArmAt, when set, arms the query when this instruction has been executed (the search then
+	// starts at the function entry and carries the facts learned on the way, also around loops).
+	ArmAt ssa.Instruction
 
 	classes map[string]bool // access paths that are condition classes in Fn
 	prog    *Prog
 	relCmp  map[string]bool   // comparison keys tested more than once in Fn
 	relPhi  map[*ssa.Phi]bool // phis whose value can decide a later branch
+
+	viaFallback bool
+	startBlock  *ssa.BasicBlock // runAt: start at the head of this block
 }
 
 // computeRelevance restricts the facts a path carries to those that can decide
@@ -78,12 +84,12 @@ func (s *Search) computeRelevance() {
 				count[k]++
 			}
 			if p, ok := x.X.(*ssa.Phi); ok {
-				if _, isC := x.Y.(*ssa.Const); isC {
+				if _, isC := symConstAny(x.Y); isC {
 					s.markPhi(p, 0)
 				}
 			}
 			if p, ok := x.Y.(*ssa.Phi); ok {
-				if _, isC := x.X.(*ssa.Const); isC {
+				if _, isC := symConstAny(x.X); isC {
 					s.markPhi(p, 0)
 				}
 			}
@@ -163,6 +169,100 @@ func constStr(c *ssa.Const) string {
 		return "nil"
 	}
 	return c.Value.ExactString()
+}
+
+// symConst: values that compare like constants on a path: nil, boolean and integer constants, and
+// loads of sentinel error variables (unexported package-level variables of type error that are
+// stored only by their package's initialiser).
+func symConst(v ssa.Value) (string, bool) {
+	switch x := v.(type) {
+	case *ssa.Const:
+		if x.Value == nil || x.Value.Kind() == constant.Bool || x.Value.Kind() == constant.Int {
+			return constStr(x), true
+		}
+	case *ssa.UnOp:
+		if g, ok := x.X.(*ssa.Global); ok && x.Op == token.MUL && isSentinel(g) {
+			return "sentinel:" + g.Pkg.Pkg.Path() + "." + g.Name(), true
+		}
+	}
+	return "", false
+}
+
+// symConstAny: as symConst, and any other constant by its exact value.
+func symConstAny(v ssa.Value) (string, bool) {
+	if s, ok := symConst(v); ok {
+		return s, true
+	}
+	if c, ok := v.(*ssa.Const); ok {
+		return constStr(c), true
+	}
+	return "", false
+}
+
+var sentinelMemo = map[*ssa.Global]bool{}
+
+func isSentinel(g *ssa.Global) bool {
+	if v, ok := sentinelMemo[g]; ok {
+		return v
+	}
+	res := false
+	defer func() { sentinelMemo[g] = res }()
+	pt, ok := g.Type().(*types.Pointer)
+	if !ok || pt.Elem().String() != "error" || g.Pkg == nil || token.IsExported(g.Name()) {
+		return false
+	}
+	var fns []*ssa.Function
+	var add func(f *ssa.Function)
+	add = func(f *ssa.Function) {
+		fns = append(fns, f)
+		for _, a := range f.AnonFuncs {
+			add(a)
+		}
+	}
+	for _, m := range g.Pkg.Members {
+		switch y := m.(type) {
+		case *ssa.Function:
+			add(y)
+		case *ssa.Type:
+			for _, t := range []types.Type{y.Type(), types.NewPointer(y.Type())} {
+				ms := g.Pkg.Prog.MethodSets.MethodSet(t)
+				for i := 0; i < ms.Len(); i++ {
+					if f := g.Pkg.Prog.MethodValue(ms.At(i)); f != nil && f.Pkg == g.Pkg {
+						add(f)
+					}
+				}
+			}
+		}
+	}
+	stores := 0
+	for _, f := range fns {
+		for _, b := range f.Blocks {
+			for _, in := range b.Instrs {
+				for _, op := range in.Operands(nil) {
+					if op == nil || *op != ssa.Value(g) {
+						continue
+					}
+					switch y := in.(type) {
+					case *ssa.Store:
+						if y.Addr == ssa.Value(g) && f.Name() == "init" && f.Parent() == nil {
+							stores++
+							continue
+						}
+						return false
+					case *ssa.UnOp:
+						if y.Op == token.MUL {
+							continue
+						}
+						return false
+					default:
+						return false // address escapes
+					}
+				}
+			}
+		}
+	}
+	res = stores == 1
+	return res
 }
 
 // condClasses computes the field paths of Fn that are only loaded, never
@@ -389,10 +489,10 @@ func (s *Search) eval(v ssa.Value, facts map[string]string) (val, known bool) {
 				}
 			}
 			l, r := x.X, x.Y
-			if _, ok := l.(*ssa.Const); ok {
+			if _, ok := symConstAny(l); ok {
 				l, r = r, l
 			}
-			if c, ok := r.(*ssa.Const); ok {
+			if cs, ok := symConstAny(r); ok {
 				var fv string
 				var have bool
 				if p, ok := l.(*ssa.Phi); ok {
@@ -401,13 +501,13 @@ func (s *Search) eval(v ssa.Value, facts map[string]string) (val, known bool) {
 					fv, have = facts[k]
 				}
 				if have && !strings.HasPrefix(fv, "!") {
-					eq := fv == constStr(c)
+					eq := fv == cs
 					if x.Op == token.NEQ {
 						eq = !eq
 					}
 					return eq, true
 				}
-				if have && strings.HasPrefix(fv, "!") && fv[1:] == constStr(c) {
+				if have && strings.HasPrefix(fv, "!") && fv[1:] == cs {
 					// known to differ from c
 					return x.Op == token.NEQ, true
 				}
@@ -438,10 +538,10 @@ func (s *Search) learn(v ssa.Value, val bool, facts map[string]string) {
 		}
 		if x.Op == token.EQL || x.Op == token.NEQ {
 			l, r := x.X, x.Y
-			if _, ok := l.(*ssa.Const); ok {
+			if _, ok := symConstAny(l); ok {
 				l, r = r, l
 			}
-			if c, ok := r.(*ssa.Const); ok {
+			if cs, ok := symConstAny(r); ok {
 				eq := val == (x.Op == token.EQL)
 				var key string
 				if p, ok := l.(*ssa.Phi); ok {
@@ -451,9 +551,9 @@ func (s *Search) learn(v ssa.Value, val bool, facts map[string]string) {
 				}
 				if key != "" {
 					if eq {
-						facts[key] = constStr(c)
+						facts[key] = cs
 					} else if _, have := facts[key]; !have {
-						facts[key] = "!" + constStr(c)
+						facts[key] = "!" + cs
 					}
 				}
 			}
@@ -504,7 +604,7 @@ func (s *Search) enter(from, to *ssa.BasicBlock, facts map[string]string) map[st
 		if !s.relPhi[p] {
 			continue
 		}
-		if _, isConst := inc.(*ssa.Const); !isConst {
+		if _, isConst := symConstAny(inc); !isConst {
 			if _, isPhi := inc.(*ssa.Phi); !isPhi {
 				// a boolean input whose value is known on this path (e.g. a comparison just branched on)
 				if bv, known := s.eval(inc, facts); known {
@@ -513,12 +613,11 @@ func (s *Search) enter(from, to *ssa.BasicBlock, facts map[string]string) map[st
 				}
 			}
 		}
+		if sc, ok := symConst(inc); ok {
+			set(k, sc, false)
+			continue
+		}
 		switch y := inc.(type) {
-		case *ssa.Const:
-			if y.Value == nil || y.Value.Kind() == constant.Bool || y.Value.Kind() == constant.Int {
-				set(k, constStr(y), false)
-				continue
-			}
 		case *ssa.Phi:
 			if f, ok := facts[phiKey(y)]; ok {
 				set(k, f, false)
@@ -546,12 +645,14 @@ func (s *Search) Run(start ssa.Instruction) (bool, []string) {
 	for k, v := range s.Assume {
 		init[k] = v
 	}
-	if start == nil {
+	if s.startBlock != nil {
+		st = &state{b: s.startBlock, idx: 0, facts: init}
+	} else if start == nil {
 		st = &state{b: s.Fn.Blocks[0], idx: 0, facts: init}
 	} else {
 		st = &state{b: start.Block(), idx: indexOf(start.Block(), start) + 1, facts: init}
 	}
-	st.armed = s.Via == nil
+	st.armed = s.Via == nil && s.ArmAt == nil
 	visited := map[string]bool{}
 	queue := []*state{st}
 	steps := 0
@@ -560,12 +661,25 @@ func (s *Search) Run(start ssa.Instruction) (bool, []string) {
 		queue = queue[1:]
 		steps++
 		if steps > 400000 {
+			if s.Via != nil && !s.viaFallback {
+				// too many combinations of facts in front of the Via edge: start at the Via edges
+				// themselves with what the edge alone teaches (fewer facts, hence more paths: sound)
+				return s.runFromVia()
+			}
 			return true, []string{"search budget exhausted (treated as reachable)"}
 		}
 		b := cur.b
 		stopped := false
 		for i := cur.idx; i < len(b.Instrs); i++ {
 			in := b.Instrs[i]
+			if s.ArmAt != nil && in == s.ArmAt {
+				if !cur.armed {
+					c2 := *cur
+					c2.armed = true
+					cur = &c2
+				}
+				continue
+			}
 			if cur.armed && s.Target != nil && s.Target(in) {
 				return true, s.witness(cur, in)
 			}
@@ -616,6 +730,47 @@ func (s *Search) Run(start ssa.Instruction) (bool, []string) {
 			}
 			visited[key] = true
 			queue = append(queue, &state{b: succ, idx: 0, facts: facts, prev: cur, armed: armed})
+		}
+	}
+	return false, nil
+}
+
+func (s *Search) runAt(b *ssa.BasicBlock, facts map[string]string) (bool, []string) {
+	s.startBlock = b
+	s.Assume = facts
+	if s.relCmp == nil {
+		s.computeRelevance()
+	}
+	return s.Run(nil)
+}
+
+// runFromVia runs the query from every edge that satisfies Via.
+func (s *Search) runFromVia() (bool, []string) {
+	for _, b := range s.Fn.Blocks {
+		for si, succ := range b.Succs {
+			e := Edge{b, si}
+			if !s.Via(e) {
+				continue
+			}
+			s2 := *s
+			s2.Via = nil
+			s2.viaFallback = true
+			facts := map[string]string{}
+			for k, v := range s.Assume {
+				facts[k] = v
+			}
+			if n := len(b.Instrs); n > 0 && !s.NoFacts {
+				if iff, ok := b.Instrs[n-1].(*ssa.If); ok {
+					s2.learn(iff.Cond, si == 0, facts)
+				}
+			}
+			s2.Assume = facts
+			var first ssa.Instruction
+			// Run starts after the given instruction: start "before" the first instruction of succ
+			if found, w := s2.runAt(succ, facts); found {
+				return true, w
+			}
+			_ = first
 		}
 	}
 	return false, nil
@@ -947,6 +1102,15 @@ func MustPass(fn *ssa.Function, start ssa.Instruction, g *Gate, target, stop fun
 	}
 	s := &Search{Fn: fn, Cut: func(e Edge) bool { return g.Accept[e] }, Stop: stop, Target: target, Assume: assume}
 	found, w := s.Run(start)
+	if found && start != nil {
+		// second opinion with the facts that hold when start is reached (state that is reset in
+		// front of start, e.g. a flag hoisted out of a receive loop): explore from the function
+		// entry, count only what happens after start has been executed
+		s2 := &Search{Fn: fn, Cut: s.Cut, Stop: stop, Target: target, Assume: assume, ArmAt: start}
+		if found2, _ := s2.Run(nil); !found2 {
+			return true, nil
+		}
+	}
 	return !found, w
 }
 
